@@ -168,7 +168,10 @@ CLI_OPTIONS = {"emit_linenums", "c_line_in_traceback", "compile_time_env", "anno
 
 # set_initial_path embeds the ABSOLUTE directory of the source file in the C code: the output then depends on where the
 # project lives, which breaks the "same inputs in a fresh directory" oracle without any cache being involved
-SKIP_DIRECTIVES = {"set_initial_path", "language_level", "nogil", "gil", "with_gil", "callspec", "np_pythran", "formal_grammar",
+# linetrace / profile: the generated __Pyx_TraceLine()/__Pyx_TraceStart*() calls carry line-table offsets that are not
+# deterministic on this tree (known finding C42-linetrace-offsets-nondeterministic: two compilations of the same inputs
+# differ), so a byte comparison with a second compilation cannot judge the cache for them
+SKIP_DIRECTIVES = {"linetrace", "profile", "set_initial_path", "language_level", "nogil", "gil", "with_gil", "callspec", "np_pythran", "formal_grammar",
                    "control_flow.dot_output", "control_flow.dot_annotate_defs", "preliminary_late_includes_cy28",
                    "py2_import", "warn", "test_body_needs_exception_handling"}
 DIRECTIVE_VALUES = {
